@@ -175,8 +175,22 @@ read_physical_record(ldb_reader_t *lr, ldb_slice_t *result) {
     if (type == LDB_TYPE_ZERO && length == 0) {
       /* Skip zero length record without reporting any drops since
          such records are produced by the mmap based writing code in
-         env_unix_impl.h that preallocates file regions. */
+         env_unix_impl.h that preallocates file regions. That only
+         explains a region that is zero up to the end of the block:
+         if anything else follows, data is being dropped (e.g. behind
+         a zeroed sector) and the drop must be reported. */
+      size_t drop_size = lr->buffer.size;
+      size_t i;
+
+      for (i = 0; i < drop_size; i++) {
+        if (lr->buffer.data[i] != 0)
+          break;
+      }
+
       ldb_slice_reset(&lr->buffer);
+
+      if (i < drop_size)
+        report_corruption(lr, drop_size, "zero header followed by data");
 
       return LDB_BAD_RECORD;
     }
